@@ -31,21 +31,21 @@ type syncEvent struct {
 }
 
 type syncEnv struct {
-	mu      sync.Mutex
-	events  []syncEvent
-	blocks  map[Hash]*TestBlock
-	height  map[Hash]int
-	parent  map[Hash]Hash
-	best    map[Hash]bool // on some best chain version since the last idle point
-	bestNow []Hash        // current best chain by height
-	btm     *RecBlockTxManager
-	plan    func(n int) string
-	nreq    int
-	notAvailRun int
-	rng     *rand.Rand
-	wg      sync.WaitGroup
-	violations []string
-	start   int
+	mu           sync.Mutex
+	events       []syncEvent
+	blocks       map[Hash]*TestBlock
+	height       map[Hash]int
+	parent       map[Hash]Hash
+	best         map[Hash]bool // on some best chain version since the last idle point
+	bestNow      []Hash        // current best chain by height
+	btm          *RecBlockTxManager
+	plan         func(n int) string
+	nreq         int
+	notAvailRun  int
+	rng          *rand.Rand
+	wg           sync.WaitGroup
+	violations   []string
+	start        int
 	stallOrphans bool
 }
 
@@ -70,7 +70,26 @@ func (e *syncEnv) RequestBlock(ctx context.Context, hash Hash, handler bitcoin_r
 			e.violations = append(e.violations, fmt.Sprintf("below-start-height|block at height %d requested, start height %d", ht, e.start))
 		}
 		if e.btm.Has(hash) {
-			e.violations = append(e.violations, fmt.Sprintf("already-processed-block-requested|height %d", ht))
+			var tail []string
+			for _, ev := range e.events {
+				switch ev.Kind {
+				case "request":
+					tail = append(tail, fmt.Sprintf("req@%d(%s)", e.height[ev.Hash], ev.Note))
+				case "append":
+					tail = append(tail, fmt.Sprintf("append@%d", e.height[ev.Hash]))
+				default:
+					tail = append(tail, ev.Kind)
+				}
+			}
+			buf := make([]byte, 4096)
+			buf = buf[:runtime.Stack(buf, false)]
+			caller := "?"
+			for _, l := range strings.Split(string(buf), "\n") {
+				if strings.Contains(l, "block_manager.go:") || strings.Contains(l, "node_manager.go:") {
+					caller += " " + strings.TrimSpace(l)
+				}
+			}
+			e.violations = append(e.violations, fmt.Sprintf("already-processed-block-requested|height %d; caller %s; events so far: %v", ht, caller, tail))
 		}
 		if !e.best[hash] {
 			e.violations = append(e.violations, fmt.Sprintf("non-best-chain-block-requested|height %d", ht))
@@ -283,6 +302,13 @@ func c05Case(ctx context.Context, run *common.Run, obs *c05obs, idx int, orphan 
 	cfg.ConcurrentBlockRequests = conc
 	cfg.BlockRequestDelay = config.NewDuration(2 * time.Millisecond)
 	mgr := bitcoin_reader.NewNodeManager("/verif/", cfg, repo, netx.NewSpyPeers())
+	env.btm.OnCall = func(kind string, h Hash) {
+		if kind == "append" {
+			env.mu.Lock()
+			env.log("append", h, "")
+			env.mu.Unlock()
+		}
+	}
 	bm := bitcoin_reader.NewBlockManager(env.btm, env, conc, 2*time.Millisecond)
 	mgr.SetBlockManager(env.btm, bm, proc)
 	bmThread := threads.NewInterruptableThread("bm", bm.Run)
